@@ -73,14 +73,17 @@ inductive Err where
   | any
   | panic
   | exit
+  | nz          -- some errno other than 0 (which one depends on the host file system / network)
 deriving Repr, DecidableEq
 
 inductive Kind where
   | stdin | stdout | stderr | pre | file | dir
+  | lsn    -- pre-opened TCP listener (experimental/sock)
+  | conn   -- accepted TCP connection
 deriving Repr, DecidableEq
 
 def Kind.isPreopen : Kind → Bool
-  | .stdin | .stdout | .stderr | .pre => true
+  | .stdin | .stdout | .stderr | .pre | .lsn => true
   | _ => false
 
 abbrev Fds := DescTable.Table Kind
@@ -108,6 +111,10 @@ structure Host where
   mono : Nat := 0
   monoRes : Nat := 0
   preName : List Nat := []
+  /-- name lengths of the entries of the pre-opened directory / of the opened sub-directory, in the order the host
+  file system lists them (without "." and "..") -/
+  preEntries : List Nat := []
+  dirEntries : List Nat := []
 deriving Repr
 
 /-- `nullTerminatedByteCount` -/
@@ -426,7 +433,7 @@ def randomGet (m : Mem) (buf bufLen : Nat) : Res :=
 def preopenPath (h : Host) (fds : Fds) (fd : Nat) : Option (List Nat) :=
   match lookupFd fds fd with
   | some .pre => some h.preName
-  | some .stdin | some .stdout | some .stderr => some []
+  | some .stdin | some .stdout | some .stderr | some .lsn => some []
   | _ => none
 
 def fdPrestatGet (h : Host) (fds : Fds) (m : Mem) (fd res : Nat) : Res :=
@@ -489,65 +496,5 @@ def seekLike (fds : Fds) (fd res : Nat) : Res :=
   match lookupFd fds fd with
   | none => { err := ebadf }
   | some _ => { err := .any, writes := [Wr.region res 8] }
-
-/-! ### dispatcher and the designated output regions (specification, over ℕ) -/
-
-def modelled : List String :=
-  ["poll_oneoff", "fd_read", "fd_pread", "fd_write", "fd_pwrite", "args_get", "environ_get", "args_sizes_get",
-   "environ_sizes_get", "clock_res_get", "clock_time_get", "random_get", "fd_prestat_get", "fd_prestat_dir_name",
-   "fd_renumber", "fd_close", "fd_fdstat_get", "fd_filestat_get", "fd_seek", "fd_tell", "proc_exit", "sched_yield"]
-
-def call (fixed : Bool) (h : Host) (fds : Fds) (m : Mem) (fn : String) (a : List Nat) : Option Res :=
-  match fn, a with
-  | "poll_oneoff", [i, o, n, r] => some (pollOneoff fixed fds m (w32 i) (w32 o) (w32 n) (w32 r))
-  | "fd_read", [fd, iovs, cnt, r] => some (fdRead h fds m (w32 fd) (w32 iovs) (w32 cnt) (w32 r))
-  | "fd_pread", [fd, iovs, cnt, _, r] => some (fdPread fds m (w32 fd) (w32 iovs) (w32 cnt) (w32 r))
-  | "fd_write", [fd, iovs, cnt, r] => some (fdWrite fds m (w32 fd) (w32 iovs) (w32 cnt) (w32 r))
-  | "fd_pwrite", [fd, iovs, cnt, _, r] => some (fdPwrite fds m (w32 fd) (w32 iovs) (w32 cnt) (w32 r))
-  | "args_get", [p, q] => some (argsGet h m (w32 p) (w32 q))
-  | "environ_get", [p, q] => some (environGet h m (w32 p) (w32 q))
-  | "args_sizes_get", [p, q] => some (argsSizesGet h m (w32 p) (w32 q))
-  | "environ_sizes_get", [p, q] => some (environSizesGet h m (w32 p) (w32 q))
-  | "clock_res_get", [id, r] => some (clockResGet h m (w32 id) (w32 r))
-  | "clock_time_get", [id, _, r] => some (clockTimeGet h m (w32 id) (w32 r))
-  | "random_get", [b, l] => some (randomGet m (w32 b) (w32 l))
-  | "fd_prestat_get", [fd, r] => some (fdPrestatGet h fds m (w32 fd) (w32 r))
-  | "fd_prestat_dir_name", [fd, p, l] => some (fdPrestatDirName h fds m (w32 fd) (w32 p) (w32 l))
-  | "fd_renumber", [f, t] => some (renumber none fds (w32 f) (w32 t))
-  | "fd_close", [fd] => some (fdClose fds (w32 fd))
-  | "fd_fdstat_get", [fd, r] => some (statLike fds m (w32 fd) (w32 r) 24)
-  | "fd_filestat_get", [fd, r] => some (statLike fds m (w32 fd) (w32 r) 64)
-  | "fd_seek", [fd, _, _, r] => some (seekLike fds (w32 fd) (w32 r))
-  | "fd_tell", [fd, r] => some (seekLike fds (w32 fd) (w32 r))
-  | "proc_exit", [_] => some { err := .exit }
-  | "sched_yield", [] => some { err := .errno 0 }
-  | _, _ => none
-
-/-- Output regions the signature designates, over the naturals (no wrap-around). -/
-def designated (h : Host) (m : Mem) (fn : String) (a : List Nat) : List (Nat × Nat) :=
-  match fn, a with
-  | "poll_oneoff", [_, o, n, r] => [(o, 32 * n), (r, 4)]
-  | "fd_read", [_, iovs, cnt, r] => iovRegions m iovs cnt 0 ++ [(r, 4)]
-  | "fd_pread", [_, iovs, cnt, _, r] => iovRegions m iovs cnt 0 ++ [(r, 4)]
-  | "fd_write", [_, _, _, r] => [(r, 4)]
-  | "fd_pwrite", [_, _, _, _, r] => [(r, 4)]
-  | "args_get", [p, q] => [(p, 4 * h.args.length), (q, nulSize h.args)]
-  | "environ_get", [p, q] => [(p, 4 * h.env.length), (q, nulSize h.env)]
-  | "args_sizes_get", [p, q] => [(p, 4), (q, 4)]
-  | "environ_sizes_get", [p, q] => [(p, 4), (q, 4)]
-  | "clock_res_get", [_, r] => [(r, 8)]
-  | "clock_time_get", [_, _, r] => [(r, 8)]
-  | "random_get", [b, l] => [(b, l)]
-  | "fd_prestat_get", [_, r] => [(r, 8)]
-  | "fd_prestat_dir_name", [_, p, l] => [(p, l)]
-  | "fd_fdstat_get", [_, r] => [(r, 24)]
-  | "fd_filestat_get", [_, r] => [(r, 64)]
-  | "fd_seek", [_, _, _, r] => [(r, 8)]
-  | "fd_tell", [_, r] => [(r, 8)]
-  | _, _ => []
-
-/-- every byte of the write lies in one of the regions -/
-def Wr.within (w : Wr) (rs : List (Nat × Nat)) : Prop :=
-  ∀ a, w.off ≤ a → a < w.off + w.len → ∃ r ∈ rs, r.1 ≤ a ∧ a < r.1 + r.2
 
 end Wz.Model.Wasi
